@@ -36,6 +36,14 @@ PLAN = {
  "C13-m7": ["C13"], "C13-m8": ["C13"], "C14-m7": ["C14"], "C14-m8": ["C14"], "C15-m7": ["C15"], "C15-m8": ["C15", "C04"],
  "C16-m7": ["C16", "C10"], "C16-m8": ["C16", "C04"], "C17-m7": ["C17"], "C17-m8": ["C17", "C09"], "C18-m7": ["C18"], "C18-m8": ["C18", "C20"],
  "C19-m7": ["C19", "C08"], "C19-m8": ["C19", "C07"], "C20-m7": ["C20"], "C20-m8": ["C20"],
+ # round 6
+ "C01-m9": ["C01", "C14"], "C01-m10": ["C01", "C16"], "C02-m9": ["C02"], "C02-m10": ["C02"], "C03-m9": ["C03", "C10"], "C03-m10": ["C03", "C05"],
+ "C04-m9": ["C04"], "C04-m10": ["C04", "C06"], "C05-m9": ["C05"], "C05-m10": ["C05"], "C06-m9": ["C06"], "C06-m10": ["C06", "C13"],
+ "C07-m9": ["C07"], "C07-m10": ["C07", "C17"], "C08-m9": ["C08", "C05"], "C08-m10": ["C08", "C19"], "C09-m9": ["C09"], "C09-m10": ["C09"],
+ "C10-m9": ["C10", "C16"], "C10-m10": ["C10", "C04"], "C11-m9": ["C11"], "C11-m10": ["C11"], "C12-m9": ["C12"], "C12-m10": ["C12", "C20"],
+ "C13-m9": ["C13"], "C13-m10": ["C13"], "C14-m9": ["C14"], "C14-m10": ["C14"], "C15-m9": ["C15"], "C15-m10": ["C15"],
+ "C16-m9": ["C16", "C10"], "C16-m10": ["C16"], "C17-m9": ["C17"], "C17-m10": ["C17"], "C18-m9": ["C18"], "C18-m10": ["C18"],
+ "C19-m9": ["C19", "C08"], "C20-m9": ["C20"], "C20-m10": ["C20", "C12"],
 }
 only = sys.argv[1:]
 path = os.path.join(HERE, "seeded", "detection.json")
